@@ -93,3 +93,15 @@ func (p *VerifParser) Reset() {
 	p.t.buttondn = false
 	p.t.Unlock()
 }
+
+// SetModes records the given application modes (mouse flags, bracketed paste,
+// focus reporting) on the parser's screen exactly as EnableMouse, EnablePaste
+// and EnableFocus would, without writing the enabling sequences (there is no
+// tty), so that decoding can be observed under every combination of them.
+func (p *VerifParser) SetModes(mouse MouseFlags, paste, focus bool) {
+	p.t.Lock()
+	p.t.mouseFlags = mouse
+	p.t.pasteEnabled = paste
+	p.t.focusEnabled = focus
+	p.t.Unlock()
+}
